@@ -145,6 +145,65 @@ func c11cScen(seed int64, sc c11cScenario) vsync.Scenario {
 	}
 }
 
+// c11cPairScen: two accounts in one process derive the contact group they share at the same moment, each on its own
+// store (nothing of one store is visible to the other, so whatever they share lives in the packages below them). Both
+// must obtain the same group, and the same again afterwards.
+func c11cPairScen(seed int64) vsync.Scenario {
+	type pw struct {
+		A, B *party
+		got  [2]string
+		errs []string
+	}
+	return vsync.Scenario{
+		Name: "two accounts derive their contact group at the same moment",
+		Setup: func(s *vsync.Sched) vsync.World {
+			w := &pw{A: newParty(seed, "A", "1", 2, 2, false), B: newParty(seed, "B", "1", 2, 2, false)}
+			ka, kb := detKey(seed, "acct/A").GetPublic(), detKey(seed, "acct/B").GetPublic()
+			w.A.ds.hook = func(op, key string) { vsync.PointHere("ds-" + op) }
+			w.B.ds.hook = func(op, key string) { vsync.PointHere("ds-" + op) }
+			for i, c := range []struct {
+				p *party
+				x crypto.PubKey
+			}{{w.A, kb}, {w.B, ka}} {
+				i, c := i, c
+				vsync.GoNamed(fmt.Sprintf("T%d", i), func() {
+					g, err := c.p.st.GetGroupForContact(c.x)
+					if err != nil {
+						w.errs = append(w.errs, err.Error())
+						return
+					}
+					w.got[i] = groupSummary(g)
+				})
+			}
+			return w
+		},
+		Check: func(x *vsync.Execution, wd vsync.World) (string, *vsync.Verdict) {
+			w := wd.(*pw)
+			w.A.ds.hook, w.B.ds.hook = nil, nil
+			if len(x.Panics) > 0 {
+				return "panic", &vsync.Verdict{Sig: "C11/panic", Desc: fmt.Sprint(x.Panics)}
+			}
+			if x.Deadlock {
+				return "deadlock", &vsync.Verdict{Sig: "C11/deadlock", Desc: fmt.Sprint(x.BlockedAll)}
+			}
+			if len(w.errs) > 0 {
+				return "error", &vsync.Verdict{Sig: "C11/concurrent-first-use-fails", Desc: strings.Join(w.errs, "; ")}
+			}
+			ka, kb := detKey(seed, "acct/A").GetPublic(), detKey(seed, "acct/B").GetPublic()
+			ga, erra := w.A.cloneParty().st.GetGroupForContact(kb)
+			gb, errb := w.B.cloneParty().st.GetGroupForContact(ka)
+			if erra != nil || errb != nil {
+				return "error", &vsync.Verdict{Sig: "C11/unusable-after-concurrent-first-use", Desc: fmt.Sprint(erra, errb)}
+			}
+			o := fmt.Sprintf("agree=%v stable=%v", w.got[0] == w.got[1], w.got[0] == groupSummary(ga) && w.got[1] == groupSummary(gb))
+			if w.got[0] != w.got[1] || w.got[0] != groupSummary(ga) || w.got[1] != groupSummary(gb) {
+				return o, &vsync.Verdict{Sig: "C11/contact-group-differs-between-the-two-sides", Desc: fmt.Sprintf("A derives %.24s..., B derives %.24s... (afterwards: %.24s... / %.24s...)", w.got[0], w.got[1], groupSummary(ga), groupSummary(gb))}
+			}
+			return o, nil
+		},
+	}
+}
+
 func TestVerifC11Conc(t *testing.T) {
 	rep := vrep.New("C11")
 	defer func() {
@@ -173,5 +232,6 @@ func TestVerifC11Conc(t *testing.T) {
 	for _, sc := range scs {
 		vs = append(vs, c11cScen(seed, sc))
 	}
+	vs = append(vs, c11cPairScen(seed))
 	vsync.ExploreScenarios(rep, "concurrent", vs, bound, 4000, budget)
 }
